@@ -88,7 +88,8 @@ func init() {
 				{Harness: "annotations.ZZC15Constructor24", Desc: "@constructor: recognition and parsed name list vs reference", Bounds: map[string]interface{}{"text_bytes": 24, "list_items": "<= 5 (Split unwinding asserted)"}},
 				{Harness: "annotations.ZZC15PackageOnly24", Desc: "@packageonly: recognition and allow-list (declaring package first) vs reference", Bounds: map[string]interface{}{"text_bytes": 24, "list_items": "<= 5"}},
 				{Harness: "ignore.ZZC15Ignore18", Desc: "@ignore: recognition and upper-cased code list vs reference", Bounds: map[string]interface{}{"text_bytes": 18, "list_items": "<= 5"}},
-				{Harness: "zzverif/zzh.ZZC15bAttachment", Desc: "attachment sites: a comment (6 annotation keywords, plain, 5 near-misses) at any two of 12 sites of a file (doc of type spec / type group / func / method / named field of an @immutable struct / field of another struct / embedded field / var / const, trailing comment, comment in a body, doc of a local type; plus a block-comment doc): annotations are produced exactly at the effective sites", Bounds: map[string]interface{}{"sites": 12, "non_plain_comments": "<= 2", "alternatives": 12}},
+				{Harness: "zzverif/zzh.ZZC15bAttachment", Desc: "attachment sites: a comment (6 annotation keywords, plain, 5 near-misses) at any two of 12 sites of a file (doc of type spec / type group / func / method / named field of an @immutable struct / field of another struct / embedded field / var / const, trailing comment, comment in a body, doc of a local type; plus a block-comment doc): annotations are produced exactly at the effective sites", Bounds: map[string]interface{}{"sites": 14, "non_plain_comments": "<= 2", "alternatives": 17}},
+				{Harness: "zzverif/zzh.ZZC15bMutablePairs", Desc: "docs of two structs and of their same-named fields arbitrary at once (17 spellings each): @mutable belongs to the field of the struct whose own doc carries @immutable", Bounds: map[string]interface{}{"sites": 4, "alternatives": 17}},
 				{Harness: "annotations.ZZC15Implements24", Desc: "@implements: recognition, pointer flag, qualifier, name vs reference", Bounds: map[string]interface{}{"text_bytes": 24}},
 			},
 			Post: func(c *checkCtx) {
